@@ -128,3 +128,77 @@ def get_arg(call: ast.Call, pos: int | None, name: str | None) -> ast.AST | None
     if pos is not None and pos < len(call.args) and not any(isinstance(a, ast.Starred) for a in call.args[:pos + 1]):
         return call.args[pos]
     return None
+
+
+def tabulate_method(repo: Repo, module: str, qual: str, attrs: dict[str, Any], pos_args: list[Any],
+                    call_models: dict[str, Callable] | None = None, **kw: Any) -> tuple[SymEval, list[Path]]:
+    """Decision table of a method with its non-self parameters bound *by position* (parameter names are free to change)."""
+    fi = repo.func(module, qual)
+    params = [p for p in fi.params() if p not in ('self', 'cls')]
+    if len(params) < len(pos_args):
+        raise AnalysisError(f'{module}:{qual}: has {len(params)} parameters, the rule binds {len(pos_args)}')
+    ev = SymEval(repo, call_models=call_models or {}, **kw)
+    cls = (module, fi.cls) if fi.cls else None
+    paths = ev.tabulate(fi, dict(zip(params, pos_args)), Obj(cls, dict(attrs)) if cls else None)
+    return ev, paths
+
+
+def char_alias(paths: list[Path], value_tag: str, name: str = 'c') -> dict[str, str]:
+    """Aliases `<value_tag> == <const>` -> `<name>=<const>` for the equality atoms the paths decided on one symbolic value."""
+    out: dict[str, str] = {}
+    pre = f'{value_tag} == '
+    for p in paths:
+        for a in p.decisions:
+            if a.startswith(pre):
+                out[a] = f'{name}={a[len(pre):]}'
+    return out
+
+
+def api_table(repo: Repo, module: str, qual: str, self_cls: str | None = None, bv_params: tuple[str, ...] = ('flags',),
+              values: dict[str, Any] | None = None, attrs: dict[str, Any] | None = None, **kw: Any) -> tuple[SymEval, list[Path]]:
+    """Decision table (with events) of a public function/method: parameters are bound by their API names, flag words as
+    symbolic bit-vectors.  Locals, helper names and statement order inside the function are free."""
+    fi = repo.func(module, qual)
+    vals = dict(values or {})
+    args = {}
+    for p in fi.params():
+        if p in ('self', 'cls'):
+            continue
+        args[p] = vals.get(p, BV(p) if p in bv_params else Opaque(p))
+    kw.setdefault('inline', False)
+    ev = SymEval(repo, **kw)
+    obj = Obj((module, self_cls or fi.cls), dict(attrs or {})) if fi.cls else None
+    return ev, ev.tabulate(fi, args, obj)
+
+
+def bind_call(repo: Repo, name: str, args: list, kwargs: dict) -> dict[str, Any]:
+    """Arguments of a call event by the callee's parameter names (internal callees); positional leftovers as '#i'."""
+    out = dict(kwargs)
+    params: list[str] = []
+    if ':' in name:
+        mod, qual = name.split(':', 1)
+        if repo.has_func(mod, qual):
+            params = [p for p in repo.func(mod, qual).params() if p not in ('self', 'cls')]
+        elif mod in repo.modules and qual in repo.modules[mod].classes and repo.has_func(mod, f'{qual}.__init__'):
+            params = [p for p in repo.func(mod, f'{qual}.__init__').params() if p != 'self']
+    for i, a in enumerate(args):
+        out[params[i] if i < len(params) else f'#{i}'] = a
+    return out
+
+
+def is_result_of(v: Any, name: str) -> bool:
+    return isinstance(v, Opaque) and v.tag.startswith(name + '(')
+
+
+def passes_through(v: Any, origin: str, forced: int = 0, decided: int = 0) -> bool:
+    """v is the caller's flag word `origin` with exactly the bits `forced` set and nothing else changed (bits the path
+    branched on, `decided`, may be known)."""
+    return isinstance(v, BV) and v.origin == origin and (v.known & ~decided) == forced and (v.val & ~decided) == forced
+
+
+def decided_bits(p: Path, origin: str) -> int:
+    out = 0
+    for a in p.decisions:
+        if a.startswith(f'bit:{origin}:'):
+            out |= int(a.rsplit(':', 1)[1], 16)
+    return out
